@@ -7,8 +7,9 @@ class HarnessJobserver:
     """A token pipe owned by the harness.  `slots` = total parallelism offered (the child holds one
     implicit token, so slots-1 bytes are put into the pipe)."""
 
-    def __init__(self, slots, withheld=0):
+    def __init__(self, slots, withheld=0, cheat=False):
         self.slots = slots
+        self.cr = self.cw = None
         r, w = os.pipe()
         # move to high fd numbers so that redo's own pipes (100+) do not collide
         self.r = _dup_high(r, 220)
@@ -21,12 +22,30 @@ class HarnessJobserver:
         self.withheld = withheld
         if self.initial:
             os.write(self.w, b't' * self.initial)
+        if cheat:
+            # the harness also owns the pipe on which a process that exits on a borrowed slot leaves a byte
+            r, w = os.pipe()
+            self.cr = _dup_high(r, self.w + 1)
+            self.cw = _dup_high(w, self.cr + 1)
+            os.close(r)
+            os.close(w)
+            os.set_inheritable(self.cr, True)
+            os.set_inheritable(self.cw, True)
 
     def env(self):
-        return {'MAKEFLAGS': ' -j --jobserver-auth=%d,%d --jobserver-fds=%d,%d' % (self.r, self.w, self.r, self.w)}
+        e = {'MAKEFLAGS': ' -j --jobserver-auth=%d,%d --jobserver-fds=%d,%d' % (self.r, self.w, self.r, self.w)}
+        if self.cr is not None:
+            e['REDO_CHEATFDS'] = '%d,%d' % (self.cr, self.cw)
+        return e
 
     def fds(self):
-        return (self.r, self.w)
+        return (self.r, self.w) + ((self.cr, self.cw) if self.cr is not None else ())
+
+    def drain_cheat(self):
+        n = 0
+        while self.cr is not None and select.select([self.cr], [], [], 0)[0]:
+            n += len(os.read(self.cr, 65536))
+        return n
 
     def add_token(self, n=1):
         os.write(self.w, b't' * n)
@@ -47,7 +66,9 @@ class HarnessJobserver:
         return struct.unpack('i', buf)[0]
 
     def close(self):
-        for fd in (self.r, self.w):
+        for fd in (self.r, self.w, self.cr, self.cw):
+            if fd is None:
+                continue
             try:
                 os.close(fd)
             except OSError:
